@@ -12,6 +12,7 @@ import (
 	"reflect"
 	"strconv"
 	"strings"
+	"sync"
 	"time"
 	"unicode/utf16"
 	"unicode/utf8"
@@ -138,7 +139,12 @@ type Case struct {
 
 	// History of the struct value handed to NewFlagSet (the model never looks at it):
 	Prefill bool  `json:"prefill,omitempty"` // every leaf holds garbage of its type before the first NewFlagSet
-	Prior   *Case `json:"prior,omitempty"`   // reload: this round (same struct type, other sources) ran first on the same struct value
+	Prior   *Case `json:"prior,omitempty"`   // reload: this round (same struct type, other sources) ran first on the same struct value; priors may be chained
+
+	// Peers run concurrently with the last round, each in its own goroutine on its own struct value
+	// of the same struct type with its own FlagSet: same tags, JSON and environment (those are
+	// process-global), but its own command line.
+	Peers []*Case `json:"peers,omitempty"`
 }
 
 var fileNames = []string{"cfg.json", "my config.json", "a=b.json", "ünï-配置.json", "sub/dir/c.json"}
@@ -266,12 +272,64 @@ func poison(t int, v any) *Val {
 
 func floatFmt(v *Val) byte {
 	switch v.Fmt {
-	case 1:
+	case 1, 4:
 		return 'e'
 	case 2:
 		return 'f'
+	case 3:
+		return 'E'
 	}
 	return 'g'
+}
+
+// floatText: shortest representation in the chosen format; Fmt 4 spells 25 significant digits
+// (more than enough to denote the same float64).
+func floatText(v *Val) string {
+	prec := -1
+	if v.Fmt == 4 {
+		prec = 24
+	}
+	return strconv.FormatFloat(math.Float64frombits(v.F), floatFmt(v), prec, 64)
+}
+
+var durUnits = [...]struct {
+	suffix string
+	ns     int64
+}{{"ns", 1}, {"us", 1e3}, {"\u00b5s", 1e3}, {"\u03bcs", 1e3}, {"ms", 1e6}, {"s", 1e9}, {"m", 60e9}, {"h", 3600e9}}
+
+// durText renders a Duration for a textual source. Fmt 0: Duration.String(); 1..8: a whole number
+// of one unit (ns, us, µs U+00B5, μs U+03BC, ms, s, m, h) when the value is a multiple of it;
+// 9: seconds with a nine-digit fraction; 10: every unit spelled out (1h2m3s4ms5us6ns).
+// Values the chosen spelling cannot express exactly fall back to Duration.String().
+func durText(ns int64, f int) string {
+	d := time.Duration(ns)
+	switch {
+	case f >= 1 && f <= 8:
+		if u := durUnits[f-1]; ns%u.ns == 0 {
+			return strconv.FormatInt(ns/u.ns, 10) + u.suffix
+		}
+	case f == 9 && ns != math.MinInt64:
+		sign, a := "", ns
+		if a < 0 {
+			sign, a = "-", -a
+		}
+		return fmt.Sprintf("%s%d.%09ds", sign, a/1e9, a%1e9)
+	case f == 10 && ns != math.MinInt64 && ns != 0:
+		sign, a := "", ns
+		if a < 0 {
+			sign, a = "-", -a
+		}
+		out := sign
+		for _, i := range []int{7, 6, 5, 4, 1, 0} {
+			u := durUnits[i]
+			if q := a / u.ns; q > 0 {
+				out += strconv.FormatInt(q, 10) + u.suffix
+				a -= q * u.ns
+			}
+		}
+		return out
+	}
+	return d.String()
 }
 
 // renderText renders a value for the tag default, an environment variable or the command line.
@@ -289,9 +347,9 @@ func renderText(t int, v *Val) string {
 	case TString:
 		return string(v.S)
 	case TFloat:
-		return strconv.FormatFloat(math.Float64frombits(v.F), floatFmt(v), -1, 64)
+		return floatText(v)
 	case TDur:
-		return time.Duration(v.I).String()
+		return durText(v.I, v.Fmt)
 	case TBytes:
 		return base64.StdEncoding.EncodeToString(v.Y)
 	}
@@ -308,13 +366,68 @@ func renderJSON(t int, v *Val) string {
 	case TUint, TUint64:
 		return strconv.FormatUint(v.U, 10)
 	case TString:
-		return jsonString(string(v.S), v.Fmt == 1)
+		return jsonStringFmt(string(v.S), v.Fmt)
 	case TFloat:
-		return strconv.FormatFloat(math.Float64frombits(v.F), floatFmt(v), -1, 64)
+		return floatText(v)
 	case TBytes:
-		return `"` + base64.StdEncoding.EncodeToString(v.Y) + `"`
+		b := base64.StdEncoding.EncodeToString(v.Y)
+		if v.Fmt == 1 { // the solidus may be escaped in a JSON string
+			b = strings.ReplaceAll(b, "/", `\/`)
+		}
+		return `"` + b + `"`
 	}
 	panic("bad type")
+}
+
+// jsonStringFmt: 0 encoding/json's own spelling; 1 every non-ASCII rune as \uXXXX; 2 every rune
+// as \uXXXX; 3 the short escapes (\b \f \n \r \t \/ \" \\), everything else raw (no HTML escaping).
+func jsonStringFmt(s string, f int) string {
+	switch f {
+	case 0:
+		return jsonString(s, false)
+	case 1:
+		return jsonString(s, true)
+	}
+	var sb strings.Builder
+	sb.Grow(len(s) + 2)
+	sb.WriteByte('"')
+	for _, r := range s {
+		if f == 2 {
+			if r >= 0x10000 {
+				r1, r2 := utf16.EncodeRune(r)
+				fmt.Fprintf(&sb, `\u%04X\u%04x`, r1, r2)
+			} else {
+				fmt.Fprintf(&sb, `\u%04x`, r)
+			}
+			continue
+		}
+		switch r {
+		case '\b':
+			sb.WriteString(`\b`)
+		case '\f':
+			sb.WriteString(`\f`)
+		case '\n':
+			sb.WriteString(`\n`)
+		case '\r':
+			sb.WriteString(`\r`)
+		case '\t':
+			sb.WriteString(`\t`)
+		case '/':
+			sb.WriteString(`\/`)
+		case '"':
+			sb.WriteString(`\"`)
+		case '\\':
+			sb.WriteString(`\\`)
+		default:
+			if r < 0x20 {
+				fmt.Fprintf(&sb, `\u%04x`, r)
+			} else {
+				sb.WriteRune(r)
+			}
+		}
+	}
+	sb.WriteByte('"')
+	return sb.String()
 }
 
 func jsonString(s string, escapeAll bool) string {
@@ -496,6 +609,13 @@ func renderDoc(nodes []*Node, style int, emptyObj bool, pick func(*Field) (strin
 		if len(members) == 0 {
 			return "{}", false
 		}
+		if style&8 != 0 { // every member a second time, with the identical value
+			members = append(members, members...)
+		}
+		if style&4 != 0 { // CRLF line ends, blanks and tabs on both sides of every token
+			ind := "\r\n" + strings.Repeat("  ", depth+1)
+			return " { \t" + ind + strings.Join(members, "\t , "+ind) + " \r\n" + strings.Repeat("  ", depth) + "}\t ", true
+		}
 		if style&1 != 0 {
 			ind := "\n" + strings.Repeat("\t", depth+1)
 			return "{" + ind + strings.Join(members, " ,"+ind) + "\n" + strings.Repeat("\t", depth) + "}", true
@@ -510,6 +630,9 @@ func renderDoc(nodes []*Node, style int, emptyObj bool, pick func(*Field) (strin
 }
 
 func kvSep(style int) string {
+	if style&4 != 0 {
+		return "\t:\r\n  "
+	}
 	if style&1 != 0 {
 		return " : "
 	}
@@ -520,11 +643,13 @@ func kvSep(style int) string {
 // execution
 
 type harness struct {
-	tmp      string // scratch directory of this process
+	mu       sync.Mutex // guards stats and cells (peers run in goroutines)
+	tmp      string     // scratch directory of this process
 	cwd      string
 	homeSet  bool
 	homeOrig string
 	stats    map[string]int64
+	maxes    map[string]int64
 	cells    map[string]struct{}
 	dirs     map[string]bool
 }
@@ -540,7 +665,7 @@ func newHarness() (*harness, error) {
 	if tmp, err = filepath.EvalSymlinks(tmp); err != nil {
 		return nil, err
 	}
-	h := &harness{tmp: tmp, stats: map[string]int64{}, cells: map[string]struct{}{}, dirs: map[string]bool{}}
+	h := &harness{tmp: tmp, stats: map[string]int64{}, maxes: map[string]int64{}, cells: map[string]struct{}{}, dirs: map[string]bool{}}
 	h.cwd, _ = os.Getwd()
 	h.homeOrig, h.homeSet = os.LookupEnv("HOME")
 	// a clean slate: nothing of the surrounding environment may look like a source
@@ -657,69 +782,189 @@ func garbage(t int, want any) any {
 }
 
 // runCase builds the struct value, gives it its history (garbage before the first NewFlagSet,
-// an earlier NewFlagSet+Parse round with other sources) and runs the round under test. Every
-// round is judged by its own sources only. A key starting with BROKEN: reports a defect of the
-// harness itself (illegal rendering), never one of glb.
+// earlier NewFlagSet+Parse rounds with other sources) and runs the round under test, alone or
+// next to concurrent peers. Every round is judged by its own sources only. A key starting with
+// BROKEN: reports a defect of the harness itself (illegal rendering), never one of glb.
 func runCase(cs *Case, h *harness) (key, expected, observed string) {
-	var leaves []leafRef
-	collectLeaves(cs.Root, nil, nil, &leaves)
-	if k, o := selfCheck(leaves); k != "" {
-		return k, "", o
+	// rounds, oldest first
+	var rounds []*Case
+	for c := cs; c != nil; c = c.Prior {
+		rounds = append([]*Case{c}, rounds...)
+		if len(rounds) > 8 {
+			return brokenPrefix + "history-too-long", "", ""
+		}
 	}
 	typ := buildType(cs.Root)
-	ptr := reflect.New(typ)
-	first, firstLeaves := cs, leaves
-	var priorLeaves []leafRef
-	if cs.Prior != nil {
-		collectLeaves(cs.Prior.Root, nil, nil, &priorLeaves)
-		if k, o := selfCheck(priorLeaves); k != "" {
-			return k, "", "prior round: " + o
+	leavesOf := make([][]leafRef, len(rounds))
+	for i, rd := range rounds {
+		collectLeaves(rd.Root, nil, nil, &leavesOf[i])
+		if k, o := selfCheck(leavesOf[i]); k != "" {
+			return k, "", fmt.Sprintf("round %d of %d: %s", i+1, len(rounds), o)
 		}
-		if buildType(cs.Prior.Root) != typ || cs.Prior.Prior != nil {
-			return brokenPrefix + "prior-type", "", "the earlier round does not use the same struct type"
+		if rd != cs && (buildType(rd.Root) != typ || len(rd.Peers) > 0) {
+			return brokenPrefix + "prior-type", "", "an earlier round does not use the same struct type"
 		}
-		first, firstLeaves = cs.Prior, priorLeaves
 	}
-	history := ""
-	if cs.Prefill {
-		root := ptr.Elem()
-		for _, l := range firstLeaves {
+	ptr := reflect.New(typ)
+	prefill := func(p reflect.Value, leaves []leafRef) {
+		root := p.Elem()
+		for _, l := range leaves {
 			want, _ := expectedOf(l.t, l.f)
 			root.FieldByIndex(l.index).Set(reflect.ValueOf(garbage(l.t, want)))
 		}
-		history = "prefilled"
-		h.stats["history_prefilled_cases"]++
 	}
-	if cs.Prior != nil {
-		if k, e, o := runRound(first, h, ptr, firstLeaves, history); k != "" {
-			return k + "/round=1of2", e, o
+	history := ""
+	if cs.Prefill {
+		prefill(ptr, leavesOf[0])
+		history = "prefilled"
+		h.count("history_prefilled_cases", 1)
+	}
+	for i := 0; i < len(rounds)-1; i++ {
+		if k, e, o := runRound(rounds[i], h, ptr, leavesOf[i], history); k != "" {
+			return fmt.Sprintf("%s/round=%dof%d", k, i+1, len(rounds)), e, o
 		}
 		history = "reload"
-		h.stats["history_reload_cases"]++
 	}
-	return runRound(cs, h, ptr, leaves, history)
+	if len(rounds) > 1 {
+		h.count("history_reload_cases", 1)
+		h.count(fmt.Sprintf("history_reload_cases_%d_rounds", len(rounds)), 1)
+	}
+	leaves := leavesOf[len(rounds)-1]
+	if len(cs.Peers) == 0 {
+		return runRound(cs, h, ptr, leaves, history)
+	}
+	return runConcurrent(cs, h, typ, ptr, leaves, history, prefill)
+}
+
+func (h *harness) count(k string, n int64) {
+	h.mu.Lock()
+	h.stats[k] += n
+	h.mu.Unlock()
 }
 
 // runRound sets the sources of one round for real, calls NewFlagSet and Parse of glb on the
 // given struct value and compares every leaf with the value of its highest-priority source.
 func runRound(cs *Case, h *harness, ptr reflect.Value, leaves []leafRef, history string) (key, expected, observed string) {
-	// ---- sources
+	src, bk, bo := h.setSources(cs, leaves)
+	defer src.cleanup()
+	if bk != "" {
+		return bk, "", bo
+	}
+	return h.parseAndCompare(cs, ptr, leaves, buildArgv(cs, leaves, src.cfgGroup), src.doc, history)
+}
+
+// runConcurrent: the sources shared by the whole process (files, environment) are set once; the
+// round under test and each peer then run NewFlagSet+Parse in goroutines of their own, released
+// together, each on its own struct value and with its own command line.
+func runConcurrent(cs *Case, h *harness, typ reflect.Type, ptr reflect.Value, leaves []leafRef, history string, prefill func(reflect.Value, []leafRef)) (key, expected, observed string) {
+	type unit struct {
+		cs      *Case
+		ptr     reflect.Value
+		leaves  []leafRef
+		argv    []string
+		k, e, o string
+	}
+	units := []*unit{{cs: cs, ptr: ptr, leaves: leaves}}
+	for pi, p := range cs.Peers {
+		u := &unit{cs: p, ptr: reflect.New(typ)}
+		collectLeaves(p.Root, nil, nil, &u.leaves)
+		if k, o := selfCheck(u.leaves); k != "" {
+			return k, "", fmt.Sprintf("peer %d: %s", pi, o)
+		}
+		if buildType(p.Root) != typ || len(u.leaves) != len(leaves) || p.Prior != nil || len(p.Peers) > 0 {
+			return brokenPrefix + "peer-type", "", "a peer does not use the same struct type"
+		}
+		for i, l := range u.leaves { // tag, JSON and environment are shared: a peer may differ in its command line only
+			m := leaves[i]
+			if l.f.Mask&7 != m.f.Mask&7 || l.f.Env != m.f.Env {
+				return brokenPrefix + "peer-sources", "", strings.Join(l.path, ".")
+			}
+			for sidx := 0; sidx < 3; sidx++ {
+				if l.f.Src[sidx] == nil {
+					continue
+				}
+				same := false
+				if sidx == 1 {
+					same = renderJSON(l.t, l.f.Src[1]) == renderJSON(m.t, m.f.Src[1])
+				} else {
+					same = renderText(l.t, l.f.Src[sidx]) == renderText(m.t, m.f.Src[sidx])
+				}
+				if !same {
+					return brokenPrefix + "peer-sources", "", strings.Join(l.path, ".")
+				}
+			}
+		}
+		if cs.Prefill {
+			prefill(u.ptr, u.leaves)
+		}
+		units = append(units, u)
+	}
+	src, bk, bo := h.setSources(cs, leaves)
+	defer src.cleanup()
+	if bk != "" {
+		return bk, "", bo
+	}
+	for _, u := range units {
+		u.argv = buildArgv(u.cs, u.leaves, src.cfgGroup)
+	}
+	start := make(chan struct{})
+	var wg sync.WaitGroup
+	for _, u := range units {
+		wg.Add(1)
+		go func(u *unit) {
+			defer wg.Done()
+			<-start
+			hist := history
+			if u.cs != cs {
+				hist = ""
+				if cs.Prefill {
+					hist = "prefilled"
+				}
+			}
+			u.k, u.e, u.o = h.parseAndCompare(u.cs, u.ptr, u.leaves, u.argv, src.doc, hist)
+		}(u)
+	}
+	close(start)
+	wg.Wait()
+	h.count("concurrent_cases", 1)
+	h.count("concurrent_flagsets", int64(len(units)))
+	for i, u := range units {
+		if u.k != "" {
+			return fmt.Sprintf("%s/concurrent=%dof%d", u.k, i+1, len(units)), u.e, u.o
+		}
+	}
+	return "", "", ""
+}
+
+// sources is what setSources leaves behind for one round.
+type sources struct {
+	cfgGroup []string // the -config tokens, if the carrier is a file
+	doc      string
+	cleanup  func()
+}
+
+// setSources really sets what is process-global: the environment variables of the fields, the
+// JSON document in its carrier (file and/or CFG_CONFIG_B64), HOME, the decoy variables.
+func (h *harness) setSources(cs *Case, leaves []leafRef) (out sources, key, observed string) {
 	var envSet []string
+	var files []string
 	setenv := func(k, v string) {
 		os.Setenv(k, v)
 		envSet = append(envSet, k)
 	}
-	defer func() {
+	out.cleanup = func() {
 		for _, k := range envSet {
 			os.Unsetenv(k)
+		}
+		for _, f := range files {
+			os.Remove(f)
 		}
 		if h.homeSet {
 			os.Setenv("HOME", h.homeOrig)
 		} else {
 			os.Unsetenv("HOME")
 		}
-	}()
-
+	}
 	doc := renderDoc(cs.Root, cs.JSONStyle, cs.EmptyObj, func(f *Field) (string, bool) {
 		if f.Mask&SrcJSON == 0 {
 			return "", false
@@ -734,7 +979,7 @@ func runRound(cs *Case, h *harness, ptr reflect.Value, leaves []leafRef, history
 		})
 	}
 	if !json.Valid([]byte(doc)) {
-		return brokenPrefix + "json-doc", "", doc
+		return out, brokenPrefix + "json-doc", doc
 	}
 
 	for _, l := range leaves {
@@ -743,22 +988,20 @@ func runRound(cs *Case, h *harness, ptr reflect.Value, leaves []leafRef, history
 		}
 	}
 
-	type group []string
-	var groups []group
 	var cfgArg string
 	if cs.Carrier == CarFile || cs.Carrier == CarBoth {
 		name := fileNames[cs.FileName%len(fileNames)]
 		abs := filepath.Join(h.tmp, "home", name)
 		if dir := filepath.Dir(abs); !h.dirs[dir] {
 			if err := os.MkdirAll(dir, 0o755); err != nil {
-				return brokenPrefix + "mkdir", "", err.Error()
+				return out, brokenPrefix + "mkdir", err.Error()
 			}
 			h.dirs[dir] = true
 		}
 		if err := os.WriteFile(abs, []byte(doc), 0o644); err != nil {
-			return brokenPrefix + "write", "", err.Error()
+			return out, brokenPrefix + "write", err.Error()
 		}
-		defer os.Remove(abs)
+		files = append(files, abs)
 		cfgArg = abs
 		switch cs.PathKind {
 		case 1:
@@ -771,13 +1014,13 @@ func runRound(cs *Case, h *harness, ptr reflect.Value, leaves []leafRef, history
 		}
 		switch cs.CfgSyn {
 		case 0:
-			groups = append(groups, group{"-config=" + cfgArg})
+			out.cfgGroup = []string{"-config=" + cfgArg}
 		case 1:
-			groups = append(groups, group{"-config", cfgArg})
+			out.cfgGroup = []string{"-config", cfgArg}
 		case 2:
-			groups = append(groups, group{"--config=" + cfgArg})
+			out.cfgGroup = []string{"--config=" + cfgArg}
 		default:
-			groups = append(groups, group{"--config", cfgArg})
+			out.cfgGroup = []string{"--config", cfgArg}
 		}
 	}
 	switch cs.Carrier {
@@ -789,14 +1032,29 @@ func runRound(cs *Case, h *harness, ptr reflect.Value, leaves []leafRef, history
 	if cs.Decoy {
 		dp := filepath.Join(h.tmp, "decoy.json")
 		if err := os.WriteFile(dp, []byte(poisonDoc()), 0o644); err != nil {
-			return brokenPrefix + "write", "", err.Error()
+			return out, brokenPrefix + "write", err.Error()
 		}
-		defer os.Remove(dp)
+		files = append(files, dp)
 		for _, k := range decoyEnvNames {
 			setenv(k, dp)
 		}
 	}
 
+	out.doc = doc
+	if cs.Carrier != CarNone {
+		h.maxOf("json_document_bytes", int64(len(doc)))
+	}
+	return out, "", ""
+}
+
+// buildArgv renders the command line of one FlagSet: the -config tokens and one flag per field the
+// command line mentions, in the order given by the case's shuffle seed, then the tail.
+func buildArgv(cs *Case, leaves []leafRef, cfgGroup []string) []string {
+	type group []string
+	var groups []group
+	if cfgGroup != nil {
+		groups = append(groups, group(cfgGroup))
+	}
 	for _, l := range leaves {
 		if l.f.Mask&SrcCli == 0 {
 			continue
@@ -824,9 +1082,24 @@ func runRound(cs *Case, h *harness, ptr reflect.Value, leaves []leafRef, history
 	for _, g := range groups {
 		argv = append(argv, g...)
 	}
-	argv = append(argv, cs.Tail...)
+	return append(argv, cs.Tail...)
+}
 
-	// ---- the real thing
+// parseAndCompare is the observation: NewFlagSet and Parse of glb on the given struct value, then
+// every leaf against the value of its highest-priority source. Safe for concurrent use.
+func (h *harness) parseAndCompare(cs *Case, ptr reflect.Value, leaves []leafRef, argv []string, doc, history string) (key, expected, observed string) {
+	stats := map[string]int64{}
+	cells := map[string]struct{}{}
+	defer func() {
+		h.mu.Lock()
+		for k, v := range stats {
+			h.stats[k] += v
+		}
+		for k := range cells {
+			h.cells[k] = struct{}{}
+		}
+		h.mu.Unlock()
+	}()
 	root := ptr.Elem()
 	var before []any // what the fields held when the struct was handed over (diagnosis only)
 	if history != "" {
@@ -852,28 +1125,28 @@ func runRound(cs *Case, h *harness, ptr reflect.Value, leaves []leafRef, history
 	if err != nil {
 		return "parse-error:" + errKey(err, h, leaves, 3, 2), fmt.Sprintf("Parse(%q) = nil; env %s; json %s", argv, envList(leaves), strings.TrimSpace(doc)), err.Error()
 	}
-	h.stats["parses"]++
+	stats["parses"]++
 
 	// ---- compare
 	for i, l := range leaves {
 		want, winner := expectedOf(l.t, l.f)
 		got := root.FieldByIndex(l.index).Interface()
-		h.stats["fields_checked"]++
+		stats["fields_checked"]++
 		wn := "none"
 		if winner >= 0 {
 			wn = srcNames[winner]
 			if l.f.Src[winner].Empty {
 				wn += "(empty)"
-				h.stats["winner_is_empty_text"]++
+				stats["winner_is_empty_text"]++
 			}
 		}
-		h.stats["winner_"+strings.TrimSuffix(wn, "(empty)")]++
-		h.cells[l.f.Type+"/"+maskName(l.f.Mask)] = struct{}{}
+		stats["winner_"+strings.TrimSuffix(wn, "(empty)")]++
+		cells[l.f.Type+"/"+maskName(l.f.Mask)] = struct{}{}
 		stale := history != "" && !equalVal(l.t, want, before[i])
 		if stale {
-			h.stats["history_fields_prestate_differs"]++
+			stats["history_fields_prestate_differs"]++
 			if winner < 0 || l.f.Src[winner].Empty {
-				h.stats["history_fields_prestate_differs_want_zero_by_omission"]++
+				stats["history_fields_prestate_differs_want_zero_by_omission"]++
 			}
 		}
 		if equalVal(l.t, want, got) {
